@@ -114,12 +114,17 @@ void ep2_norm_sim(ep2_t *r, const ep2_t *t, int n) {
 	int i;
 	fp2_t* a = RLC_ALLOCA(fp2_t, n);
 
+	if (a != NULL) {
+		for (i = 0; i < n; i++) {
+			fp2_null(a[i]);
+		}
+	}
+
 	RLC_TRY {
 		if (a == NULL) {
 			RLC_THROW(ERR_NO_MEMORY);
 		}
 		for (i = 0; i < n; i++) {
-			fp2_null(a[i]);
 			fp2_new(a[i]);
 			fp2_copy(a[i], t[i]->z);
 		}
@@ -143,8 +148,10 @@ void ep2_norm_sim(ep2_t *r, const ep2_t *t, int n) {
 		RLC_THROW(ERR_CAUGHT);
 	}
 	RLC_FINALLY {
-		for (i = 0; i < n; i++) {
-			fp2_free(a[i]);
+		if (a != NULL) {
+			for (i = 0; i < n; i++) {
+				fp2_free(a[i]);
+			}
 		}
 		RLC_FREE(a);
 	}
